@@ -74,14 +74,14 @@ def generate(seed, tier):
         if mode < 0.3:
             t = leaf(r)
         elif mode < 0.7:
-            t = G.rand_tree(r, r.randint(1, 4 if quick else 8), widths=(0, 1, 2, 3, 4, 5, 8), maxlen=r.choice([8, 40, 600]), leaf=leaf)
+            t = G.rand_tree(r, r.randint(1, 4 if quick else 8), widths=(0, 1, 2, 3, 4, 5, 8), maxlen=r.choice([8, 40, 600]), leaf=leaf, unstable_keys=True)
         else:
             inner = G.rand_tree(r, r.randint(0, 2), widths=(0, 1, 2, 3), maxlen=40, leaf=leaf)
             t = G.pad_to(r, inner, r.choice([512, 768, 1152, 1728, 2592, 3888]) + r.choice([-2, 0, 0, 2, 4]))
         route = ROUTES[i % 5]
         if route == "parse":
             t = for_parse(t)
-        yield "storeval %s %d %s" % (route, r.randint(0, 2), " ".join(G.tokens_of(t)))
+        yield "storeval %s %d %s" % (route, r.randint(0, 2), " ".join(G.value_tokens(t)))
 
 
 FIELDS = re.compile(r"^sv rc=(-?\d+) o=(.*?) g=(.*?) i=(.*?) w=(.*?) m=(.*)$")
@@ -121,14 +121,18 @@ def agree(impl, model, req=None):
     return bool(rc) and rc.group(1) != "0" and model == "sv rc=%s" % rc.group(1)
 
 
+def _first(req):
+    return [x for x in req.split(" ")[3:] if not x.startswith("@")][0]
+
+
 def nontrivial(req, impl):
-    t = req.split(" ")
-    return t[3] in ("[", "{") or t[3].startswith("M")
+    k = _first(req)
+    return k in ("[", "{") or k.startswith("M")
 
 
 def classify(req, impl):
     t = req.split(" ")
-    k = t[3]
+    k = _first(req)
     kind = "list" if k == "[" else ("table" if k == "{" else {"U": "unk", "N": "na", "C": "char", "M": "numb"}[k[0]])
     return "%s %s" % (t[1], kind)
 
@@ -136,7 +140,7 @@ def classify(req, impl):
 def shrink(req):
     t = req.split(" ")
     import ser
-    for cand in ser.shrink("ser v " + " ".join(t[3:])):
+    for cand in ser.shrink("ser v " + " ".join(x for x in t[3:] if not x.startswith("@"))):
         yield " ".join(t[:3]) + " " + cand[6:]
 
 
